@@ -10,7 +10,7 @@ from vlib import Check, standard_proof_phase, correspond, ddmin, VERIF, tree_has
 
 PID = 'C04'
 MANIFEST = dict(
-    text='Machine-checked (Coq) for an arbitrarily nested type universe (arithmetic/enum/pointer, C strings incl. null and unterminated char arrays, std::string/string_view/path with embedded NUL, vector/deque/list/forward_list/(unordered) set and map/array/optional/pair/tuple, deferred POD / aligned / direct user types, chrono, StringRef) and every value: bytes reserved = bytes written = bytes consumed per argument and per statement (32-byte header + arguments + optional dynamic level), the encode pass consumes exactly the string lengths the size pass cached (any mix of arguments, any stale cache content), decode(encode v) = canonical v (C string cut at first NUL, null -> "", embedded NULs kept), hence for any libfmt rendering the backend text equals the text of the canonical values and, without unordered containers, of the caller\'s own view; deep copy (no dependence on caller memory unless StringRef); sanitisation = concat-map \\xHH; InlinedVector allocation points. Three refutations of the full-strength claim are proved on the faithful model and replayed on the real code (unordered containers re-ordered, direct-format types inside containers quoted, std::tuple<StringRef,..> crashes the backend). Tied to the code by byte-exact differential runs of the extracted model against the real codecs and by an end-to-end monitor through the real logger/queue/backend.',
+    text='Machine-checked (Coq) for an arbitrarily nested type universe (arithmetic/enum/pointer, C strings incl. null and unterminated char arrays, std::string/string_view/path with embedded NUL, vector/deque/list/forward_list/(unordered) set and map/array/optional/pair/tuple, deferred POD / aligned / direct user types, chrono, StringRef) and every value: bytes reserved = bytes written = bytes consumed per argument and per statement (32-byte header + arguments + optional dynamic level), the encode pass consumes exactly the string lengths the size pass cached (any mix of arguments, any stale cache content), decode(encode v) = canonical v (C string cut at first NUL, null -> "", embedded NULs kept), hence for any libfmt rendering the backend text equals the text of the canonical values and, without unordered containers, of the caller\'s own view; deep copy (no dependence on caller memory unless StringRef); sanitisation = concat-map \\xHH; InlinedVector allocation points. The model carries a code-variant flag for the std::tuple decoder (elements decoded by the codec of their decoded type = the pinned code, or by the codec that encoded them = the repaired code, finding C04-F3 fixed); the variant of the source tree is fixed by T-src (tools/srcfacts.py c04t_facts, TieC04.v, C04_tie_tuple_decoder) and for it the theorems need no side condition on the types (C04_no_side_condition, C04_text_equal_code, stmt_size_exact_code). Two refutations of the full-strength claim are proved on the faithful model and replayed on the real code (unordered containers re-ordered, direct-format types inside containers quoted); the pinned tuple decoder is refuted on the flag-on variant (std::tuple<StringRef,..> made the backend read outside the record). Tied to the code by byte-exact differential runs of the extracted model against the real codecs and by an end-to-end monitor through the real logger/queue/backend.',
     design='5 C04', technique='Coq proof by structural induction on nested types (size/cache/round-trip) + extracted-model/implementation byte-exact differential correspondence + end-to-end text monitor')
 TRUSTED = [
     'Coq 8.16.1 kernel (coqc, vm_compute for examples/refutations; no native_compute)',
